@@ -1288,6 +1288,17 @@ func (g *Gen) ptrArg(pt *Type, callee *Func, used map[*Var]bool) Expr {
 			} else if g.on("ptr.subobject") {
 				// pointer to a member / element of a local composite
 				if q, ok := g.subPath(path{e: &Ref{V: v}, t: v.Ty, writable: true, root: v}, func(x *Type) bool { return x == pt.Elem }, 0); ok {
+					vec3Member := false
+					if fe, isField := q.e.(*Field); isField && pt.Elem.Kind == KVec && pt.Elem.N == 3 {
+						_ = fe
+						vec3Member = true // finding F130 (MSL): a vec3 struct member is a packed_T3; a reference parameter cannot bind to it
+					}
+					if vec3Member && !g.on("ptr.struct-vec3-member") {
+						continue
+					}
+					if vec3Member {
+						g.feat("ptr.struct-vec3-member")
+					}
 					if !containsVecIndex(q.e) && (g.on("ptr.mat-column") || !containsMatIndex(q.e)) && (g.on("ptr.dynamic-element") || !containsDynIndex(q.e)) {
 						if containsDynIndex(q.e) {
 							g.feat("ptr.dynamic-element")
